@@ -11,7 +11,7 @@ sel = sys.argv[1:]
 bad = 0
 for name in sorted(os.listdir("seeded")):
     d = os.path.join("seeded", name)
-    if not os.path.isfile(os.path.join(d, "meta.json")):
+    if not os.path.isfile(os.path.join(d, "meta.json")):  # (seeded/handmade has none: run by hand)
         continue
     if sel and not any(name.startswith(s) for s in sel):
         continue
